@@ -93,7 +93,12 @@ func (c *C) reachableFirstParty(roots []*ssa.Function) map[*ssa.Function]bool {
 func (c *C) requestRoots() []*ssa.Function {
 	var roots []*ssa.Function
 	roots = append(roots, c.connHandlers()...)
-	for _, n := range []struct{ pkg, fn string }{{"resp", "parse"}, {"resp", "ParseStream"}, {"server", "handleClusterCommits"}} {
+	if ap := c.applyLoop(); ap != nil {
+		roots = append(roots, ap)
+	} else {
+		c.Undecided("ROOT", "the apply loop of package server")
+	}
+	for _, n := range []struct{ pkg, fn string }{{"resp", "parse"}, {"resp", "ParseStream"}} {
 		if f := c.P.Func(n.pkg, n.fn); f != nil {
 			roots = append(roots, f)
 		} else {
